@@ -904,6 +904,18 @@ let run_mut (x : sexp) : string =
   | _ -> failwith "mut"
 (* ==== END C08 ================================================================== *)
 
+(* ---- node accounting of the second-generation parser (Model/DeltaNodes.v) ----
+   payload: (codes c1 c2 ...) = BaseToken as u8 of every token, the two EndOfSource included *)
+let run_nodes (x : sexp) : string =
+  match x with
+  | L (A "codes" :: cs) ->
+      let ts = List.map (function A c -> DeltaNodes.btok_of_code (num c) | _ -> failwith "nodes") cs in
+      let o = DeltaNodes.parse_full ts in
+      let st = DeltaNodes.(match o.o_status with Ok -> "ok" | Err -> "err" | Oof -> "oof" | Panic s -> "panic" ^ string_of_n s) in
+      st ^ " nodes=" ^ string_of_n o.DeltaNodes.o_nodes ^ " decls=" ^ string_of_n o.DeltaNodes.o_decls ^ " errors=" ^ string_of_n o.DeltaNodes.o_errors
+      ^ " cap=" ^ string_of_n (DeltaNodes.capacity ts)
+  | _ -> failwith "nodes"
+
 let dispatch (stream : string) (x : sexp) : string =
   match stream with
   | "labels" -> run_labels x
@@ -918,6 +930,7 @@ let dispatch (stream : string) (x : sexp) : string =
   | "cli" -> run_cli x
   | "resolve" -> run_resolve x
   | "mut" -> run_mut x
+  | "nodes" -> run_nodes x
   | "cfg" -> run_cfg x
   | "lex-alpha" -> run_lex_alpha x
   | "lex-delta" -> run_lex_delta x
